@@ -332,3 +332,19 @@ Proof. exact (conj ref_waiter_wf ref_waiter_holds). Qed.
 Example c11_detached_child_outlives_span :
   In (ETreeWrite 1 2 false (Some 1%nat)) (ttrace (trun ref_waiter detached_procs 1 sched_detached)).
 Proof. exact detached_child_outlives_span. Qed.
+
+(* "... while read-only tools may overlap freely": a read-only call takes no workspace permit (c11_readonly_free), but
+   every tool call takes one of the tool runner's slots for as long as it runs.  The number of slots is read from
+   the source (a constant handed to the runner by SessionEngine::new): with at least two, a read-only call finds
+   one next to the mutating call in progress; with one (seeded change C11-11) it waits for that call to end *)
+Theorem c11_runner_admits_readonly_beside_mutator : forall slots readers : N,
+  runner_wf slots = true -> (readers + 1 < slots)%N -> runner_admits slots (1 + readers) = true.
+Proof. exact runner_readonly_beside_mutator. Qed.
+Print Assumptions c11_runner_admits_readonly_beside_mutator.
+
+Theorem c11_generated_runner_slots_ok : runner_wf gen_runner_slots = true.
+Proof. exact gen_runner_slots_ok. Qed.
+Print Assumptions c11_generated_runner_slots_ok.
+
+Example c11_one_slot_serialises : runner_wf 1 = false /\ runner_admits 1 1 = false.
+Proof. exact runner_one_slot_serialises. Qed.
